@@ -718,7 +718,13 @@ namespace Clipper2Lib {
   {
     typename Path<T>::size_type idx = 0;
     double max_d = 0;
-    while (end > begin && path[begin] == path[end]) flags[end--] = false;
+    if (end > begin && path[begin] == path[end])
+    {
+      // use the last point that differs from path[begin] as the end of the
+      // base line, and keep it (the trailing duplicates stay as they were)
+      while (end > begin && path[begin] == path[end]) --end;
+      flags[end] = true;
+    }
     for (typename Path<T>::size_type i = begin + 1; i < end; ++i)
     {
       // PerpendicDistFromLineSqrd - avoids expensive Sqrt()
